@@ -208,7 +208,16 @@ func (n *Native) rewrite(ld *Loaded, dir string, overlay map[string]string) erro
 			skipFun[call.Fun] = true
 			if sel, ok := call.Fun.(*ast.SelectorExpr); ok {
 				if s := p.TypesInfo.Selections[sel]; s != nil && s.Kind() == types.MethodVal {
-					call.Args = append([]ast.Expr{sel.X}, call.Args...)
+					recv := ast.Expr(sel.X)
+					sig := fn.Type().(*types.Signature)
+					_, wantPtr := sig.Recv().Type().(*types.Pointer)
+					_, havePtr := p.TypesInfo.TypeOf(sel.X).Underlying().(*types.Pointer)
+					if wantPtr && !havePtr {
+						recv = &ast.UnaryExpr{Op: token.AND, X: sel.X}
+					} else if !wantPtr && havePtr {
+						recv = &ast.StarExpr{X: sel.X}
+					}
+					call.Args = append([]ast.Expr{recv}, call.Args...)
 				}
 			}
 			call.Fun = ast.NewIdent(stub)
